@@ -1,6 +1,8 @@
 import PySMT.Proofs.C18Pareto
 import PySMT.Proofs.C18Term
 import PySMT.Proofs.C18ParetoTerm
+import PySMT.Proofs.C18ParetoPrefix
+import PySMT.Proofs.C18Real
 import PySMT.Proofs.C18Spec
 import PySMT.Proofs.C18Examples
 /-!
@@ -8,38 +10,53 @@ import PySMT.Proofs.C18Examples
 
 Property theorems about the model `PySMT.Opt` (`Impl/Opt.lean`) of `pysmt/optimization/optimizer.py`.
 
-Reading guide.  `M` is the type of models, `A m` says that `m` satisfies the user's assertions,
-`obj i m : Int` is the value of the `i`-th goal term in `m` (`toNat`/`toInt` of a bit-vector value
-according to the goal's signedness).  The solver is an arbitrary oracle `o` with the single
-assumption `OracleSpec A obj o`: every `solve` call returns a model of the assertions and of the
-constraints the routine put on top iff one exists (which one is up to the solver, and may change
-from call to call).  `Feas A obj s.stack ex` is the feasible set: assertions, whatever is on the
-solver's stack when the routine is entered, and the assumptions `ex`.  The feasible set may be
-infinite.  `fuel` bounds the number of loop iterations of the model; outcome `.fuel` means "still
-running", every other outcome is what the Python routine returns / raises.
+Reading guide.  `M` is the type of models and `A m` says that `m` satisfies the user's assertions.
+`val i m : Val` is the *raw* value of the `i`-th goal term in `m` (an integer or a bit-vector).  The
+constraints the routines build (`Constraint.holds val`) are evaluated with the SMT-LIB operators of
+the family the comparison table selected -- `BitVec.ult/ule` for `BVULT/BVULE`, `BitVec.slt/sle` for
+`BVSLT/BVSLE` -- against the cast constant `BitVec.ofInt w bound`; nothing in that semantics looks at
+the goal.  `obj i m : Int` is what the routine reads from a model (`search_is_sat`: `constant_value()`,
+resp. `bv_signed_value()` for a signed goal); hypothesis `GoalReads A val obj g gi` says exactly that
+(`obj gi m = readObj g.dom (val gi m)`) and that the term has the goal's sort -- both consequences of
+typing; the representability of objective values (`castOk`) is derived from it, no longer assumed.
+That the operator family and the cast fit the goal's signedness is therefore proved
+(`Proofs/C18Interval.atom_holds_eq`), not assumed: with `BVULT` in the signed row of the table the
+proofs fail (see the `example` on signedness below).
+
+The solver is an arbitrary oracle `o` with the single assumption `OracleSpec A val o`: every `solve`
+call returns a model of the assertions and of the constraints the routine put on top iff one exists
+(which one is up to the solver, and may change from call to call); it never raises -- a solver that
+answers "unknown" in the middle of a search is outside the property's quantifier (exhaustive oracle)
+and outside these theorems (the real `_optimize`/lexicographic code then leaves its levels pushed;
+`pareto_optimize` restores them since the `try/finally` repair).  `Feas A val s.stack ex` is the
+feasible set: assertions, whatever is on the solver's stack when the routine is entered, and the
+assumptions `ex`; it may be infinite.  `fuel` bounds the number of loop iterations of the model;
+outcome `.fuel` means "still running", every other outcome is what the Python routine returns / raises.
 
 All theorems below carry the hypothesis `supported` (the goal's logic is a key of the table in
 `_comparation_functions`) and are therefore named `…_partial`: for an Int objective whose term
 mentions bit-vectors or arrays (finding F24b, not repaired) the routines raise `KeyError`
 (`unsupported_goal_raises`), so the property as stated does not hold for those goals
-(`search_restores_full_fails`).
+(`search_restores_full_fails`).  Objective values are integers (bit-vectors through `toNat`/`toInt`);
+real-valued objectives are covered only for MaxSMT with rational weights and the *linear* strategy,
+through the common denominator (`maxsmt_real_linear_partial`, gap stated there).
 -/
 namespace PySMT.Props.C18
 open PySMT.Opt PySMT.OptSpec
 
-variable {M : Type} {A : M → Prop} {obj : Nat → M → Int} {o : Oracle M}
+variable {M : Type} {A : M → Prop} {val : Nat → M → Val} {obj : Nat → M → Int} {o : Oracle M}
 
 /-- `optimize` (linear or binary search; assumption based or push/pop based; minimisation or
     maximisation; Int, unsigned BV or signed BV) returns a model of the assertions whose cost is
     the value of the objective in that model and is the optimum over the whole feasible set.
     Missing w.r.t. the property: goals with `supported = false` (F24b). -/
-theorem search_optimal_partial (hO : OracleSpec A obj o) (g : Goal) (gi : Nat) (hsup : g.supported = true)
-    (hDom : ∀ m, A m → castOk g.dom (obj gi m) = true)
+theorem search_optimal_partial (hO : OracleSpec A val o) (g : Goal) (gi : Nat) (hsup : g.supported = true)
+    (hG : GoalReads A val obj g gi)
     (mx : Mixin) (strat : Strat) (extra : List Constraint) (fuel : Nat) (s s' : Solver M) (m : M) (c : Int)
     (h : optimize o obj mx strat g gi extra fuel s = (.done (some (m, c)), s')) :
-    Feas A obj s.stack (effExtra mx extra) m ∧ c = obj gi m ∧
-      IsOptimum (sense g.dir) (Feas A obj s.stack (effExtra mx extra)) (obj gi) c := by
-  have hs := optimize_spec (gi := gi) hO hsup hDom mx strat extra fuel s
+    Feas A val s.stack (effExtra mx extra) m ∧ c = obj gi m ∧
+      IsOptimum (sense g.dir) (Feas A val s.stack (effExtra mx extra)) (obj gi) c := by
+  have hs := optimize_spec (gi := gi) hO hsup hG mx strat extra fuel s
   rw [h] at hs
   rcases hs with hf | ⟨res, hres, _, _, _, _, hsome⟩
   · cases hf
@@ -49,12 +66,12 @@ theorem search_optimal_partial (hO : OracleSpec A obj o) (g : Goal) (gi : Nat) (
 
 /-- "no solution" is reported exactly when the assertions (with the assumptions) are unsatisfiable.
     Missing: goals with `supported = false` (F24b). -/
-theorem search_none_iff_partial (hO : OracleSpec A obj o) (g : Goal) (gi : Nat) (hsup : g.supported = true)
-    (hDom : ∀ m, A m → castOk g.dom (obj gi m) = true)
+theorem search_none_iff_partial (hO : OracleSpec A val o) (g : Goal) (gi : Nat) (hsup : g.supported = true)
+    (hG : GoalReads A val obj g gi)
     (mx : Mixin) (strat : Strat) (extra : List Constraint) (fuel : Nat) (s s' : Solver M)
     (res : Option (M × Int)) (h : optimize o obj mx strat g gi extra fuel s = (.done res, s')) :
-    res = none ↔ ¬ ∃ m, Feas A obj s.stack (effExtra mx extra) m := by
-  have hs := optimize_spec (gi := gi) hO hsup hDom mx strat extra fuel s
+    res = none ↔ ¬ ∃ m, Feas A val s.stack (effExtra mx extra) m := by
+  have hs := optimize_spec (gi := gi) hO hsup hG mx strat extra fuel s
   rw [h] at hs
   rcases hs with hf | ⟨res', hres, _, _, _, hnone, _⟩
   · cases hf
@@ -62,12 +79,12 @@ theorem search_none_iff_partial (hO : OracleSpec A obj o) (g : Goal) (gi : Nat) 
 
 /-- the assertion stack, the backtrack points and the "pop without push" flag are what they were
     before the call, for both mix-ins and both strategies.  Missing: `supported = false` (F24b). -/
-theorem search_restores_partial (hO : OracleSpec A obj o) (g : Goal) (gi : Nat) (hsup : g.supported = true)
-    (hDom : ∀ m, A m → castOk g.dom (obj gi m) = true)
+theorem search_restores_partial (hO : OracleSpec A val o) (g : Goal) (gi : Nat) (hsup : g.supported = true)
+    (hG : GoalReads A val obj g gi)
     (mx : Mixin) (strat : Strat) (extra : List Constraint) (fuel : Nat) (s s' : Solver M)
     (res : Option (M × Int)) (h : optimize o obj mx strat g gi extra fuel s = (.done res, s')) :
     s'.stack = s.stack ∧ s'.marks = s.marks ∧ s'.bad = s.bad := by
-  have hs := optimize_spec (gi := gi) hO hsup hDom mx strat extra fuel s
+  have hs := optimize_spec (gi := gi) hO hsup hG mx strat extra fuel s
   rw [h] at hs
   rcases hs with hf | ⟨res', _, e1, e2, e3, _, _⟩
   · cases hf
@@ -76,29 +93,29 @@ theorem search_restores_partial (hO : OracleSpec A obj o) (g : Goal) (gi : Nat) 
 /-- every bound handed to `mgr.Int` / `mgr.BV` / `mgr.SBV` during the search is representable:
     the search never stops with a cast error (nor with any other error).
     Missing: `supported = false` (F24b). -/
-theorem casts_in_range_partial (hO : OracleSpec A obj o) (g : Goal) (gi : Nat) (hsup : g.supported = true)
-    (hDom : ∀ m, A m → castOk g.dom (obj gi m) = true)
+theorem casts_in_range_partial (hO : OracleSpec A val o) (g : Goal) (gi : Nat) (hsup : g.supported = true)
+    (hG : GoalReads A val obj g gi)
     (mx : Mixin) (strat : Strat) (extra : List Constraint) (fuel : Nat) (s : Solver M) :
     (optimize o obj mx strat g gi extra fuel s).1 = .fuel ∨
       ∃ res, (optimize o obj mx strat g gi extra fuel s).1 = .done res := by
-  rcases optimize_spec (gi := gi) hO hsup hDom mx strat extra fuel s with hf | ⟨res, hres, _⟩
+  rcases optimize_spec (gi := gi) hO hsup hG mx strat extra fuel s with hf | ⟨res, hres, _⟩
   · exact Or.inl hf
   · exact Or.inr ⟨res, hres⟩
 
 /-- if the optimum is attained (or nothing is feasible) the search stops: from some amount of fuel
     on the model returns a result, for every oracle.  Missing: `supported = false` (F24b). -/
-theorem search_terminates_partial (hO : OracleSpec A obj o) (g : Goal) (gi : Nat) (hsup : g.supported = true)
-    (hDom : ∀ m, A m → castOk g.dom (obj gi m) = true)
+theorem search_terminates_partial (hO : OracleSpec A val o) (g : Goal) (gi : Nat) (hsup : g.supported = true)
+    (hG : GoalReads A val obj g gi)
     (mx : Mixin) (strat : Strat) (extra : List Constraint) (s : Solver M)
-    (hatt : (∃ m, Feas A obj s.stack (effExtra mx extra) m) →
-      OptimumAttained (sense g.dir) (Feas A obj s.stack (effExtra mx extra)) (obj gi)) :
+    (hatt : (∃ m, Feas A val s.stack (effExtra mx extra) m) →
+      OptimumAttained (sense g.dir) (Feas A val s.stack (effExtra mx extra)) (obj gi)) :
     ∃ N, ∀ fuel, fuel ≥ N → ∃ res, (optimize o obj mx strat g gi extra fuel s).1 = .done res := by
-  obtain ⟨N, hN⟩ := optimize_terminates (gi := gi) hO hsup hDom mx strat extra s (by
+  obtain ⟨N, hN⟩ := optimize_terminates (gi := gi) hO hsup hG mx strat extra s (by
     intro hex
     obtain ⟨c, ⟨mo, hmo, hc⟩, hopt⟩ := hatt hex
     exact ⟨mo, fun m hm => by rw [hc]; exact (sense_le g _ _).1 (hopt m hm)⟩)
   refine ⟨N, fun fuel hge => ?_⟩
-  rcases casts_in_range_partial hO g gi hsup hDom mx strat extra fuel s with hf | h
+  rcases casts_in_range_partial hO g gi hsup hG mx strat extra fuel s with hf | h
   · exact absurd hf (hN fuel hge)
   · exact h
 
@@ -106,12 +123,12 @@ theorem search_terminates_partial (hO : OracleSpec A obj o) (g : Goal) (gi : Nat
     `Σ (if clause then weight else 0)`; the returned cost is the weight of the soft clauses satisfied
     by the returned model and no feasible model satisfies a heavier set.
     Missing: soft clauses over bit-vectors/arrays (`supported = false`, F24b). -/
-theorem maxsmt_opt_partial (hO : OracleSpec A obj o) (soft : List ((M → Bool) × Int)) (gi : Nat)
-    (hobj : ∀ m, obj gi m = maxsmtObj soft m)
+theorem maxsmt_opt_partial (hO : OracleSpec A val o) (soft : List ((M → Bool) × Int)) (gi : Nat)
+    (hobj : ∀ m, obj gi m = maxsmtObj soft m) (hG : GoalReads A val obj ⟨.max, .int, true⟩ gi)
     (mx : Mixin) (strat : Strat) (fuel : Nat) (s s' : Solver M) (m : M) (c : Int)
     (h : optimize o obj mx strat ⟨.max, .int, true⟩ gi [] fuel s = (.done (some (m, c)), s')) :
-    Feas A obj s.stack [] m ∧ c = maxsmtObj soft m ∧ ∀ m', Feas A obj s.stack [] m' → maxsmtObj soft m' ≤ c := by
-  have := search_optimal_partial hO ⟨.max, .int, true⟩ gi rfl (fun _ _ => rfl) mx strat [] fuel s s' m c h
+    Feas A val s.stack [] m ∧ c = maxsmtObj soft m ∧ ∀ m', Feas A val s.stack [] m' → maxsmtObj soft m' ≤ c := by
+  have := search_optimal_partial hO ⟨.max, .int, true⟩ gi rfl hG mx strat [] fuel s s' m c h
   rw [effExtra_nil] at this
   obtain ⟨h1, h2, _, h3⟩ := this
   refine ⟨h1, by rw [h2, hobj], fun m' hm' => ?_⟩
@@ -122,12 +139,12 @@ theorem maxsmt_opt_partial (hO : OracleSpec A obj o) (soft : List ((M → Bool) 
 /-- min-max goals (`MinMaxGoal`, objective `Max(terms)`): the returned cost is the largest term
     value in the returned model and every feasible model has some term at least that large.
     Missing: `supported = false` (F24b). -/
-theorem minmax_opt_partial (hO : OracleSpec A obj o) (t : M → Int) (ts : List (M → Int)) (gi : Nat) (dom : Dom)
-    (hobj : ∀ m, obj gi m = maxOf t ts m) (hDom : ∀ m, A m → castOk dom (obj gi m) = true)
+theorem minmax_opt_partial (hO : OracleSpec A val o) (t : M → Int) (ts : List (M → Int)) (gi : Nat) (dom : Dom)
+    (hobj : ∀ m, obj gi m = maxOf t ts m) (hG : GoalReads A val obj ⟨.min, dom, true⟩ gi)
     (mx : Mixin) (strat : Strat) (fuel : Nat) (s s' : Solver M) (m : M) (c : Int)
     (h : optimize o obj mx strat ⟨.min, dom, true⟩ gi [] fuel s = (.done (some (m, c)), s')) :
-    Feas A obj s.stack [] m ∧ c = maxOf t ts m ∧ ∀ m', Feas A obj s.stack [] m' → c ≤ maxOf t ts m' := by
-  have := search_optimal_partial hO ⟨.min, dom, true⟩ gi rfl hDom mx strat [] fuel s s' m c h
+    Feas A val s.stack [] m ∧ c = maxOf t ts m ∧ ∀ m', Feas A val s.stack [] m' → c ≤ maxOf t ts m' := by
+  have := search_optimal_partial hO ⟨.min, dom, true⟩ gi rfl hG mx strat [] fuel s s' m c h
   rw [effExtra_nil] at this
   obtain ⟨h1, h2, _, h3⟩ := this
   refine ⟨h1, by rw [h2, hobj], fun m' hm' => ?_⟩
@@ -136,12 +153,12 @@ theorem minmax_opt_partial (hO : OracleSpec A obj o) (t : M → Int) (ts : List 
   rw [← hobj]; exact this
 
 /-- max-min goals (`MaxMinGoal`, objective `Min(terms)`).  Missing: `supported = false` (F24b). -/
-theorem maxmin_opt_partial (hO : OracleSpec A obj o) (t : M → Int) (ts : List (M → Int)) (gi : Nat) (dom : Dom)
-    (hobj : ∀ m, obj gi m = minOf t ts m) (hDom : ∀ m, A m → castOk dom (obj gi m) = true)
+theorem maxmin_opt_partial (hO : OracleSpec A val o) (t : M → Int) (ts : List (M → Int)) (gi : Nat) (dom : Dom)
+    (hobj : ∀ m, obj gi m = minOf t ts m) (hG : GoalReads A val obj ⟨.max, dom, true⟩ gi)
     (mx : Mixin) (strat : Strat) (fuel : Nat) (s s' : Solver M) (m : M) (c : Int)
     (h : optimize o obj mx strat ⟨.max, dom, true⟩ gi [] fuel s = (.done (some (m, c)), s')) :
-    Feas A obj s.stack [] m ∧ c = minOf t ts m ∧ ∀ m', Feas A obj s.stack [] m' → minOf t ts m' ≤ c := by
-  have := search_optimal_partial hO ⟨.max, dom, true⟩ gi rfl hDom mx strat [] fuel s s' m c h
+    Feas A val s.stack [] m ∧ c = minOf t ts m ∧ ∀ m', Feas A val s.stack [] m' → minOf t ts m' ≤ c := by
+  have := search_optimal_partial hO ⟨.max, dom, true⟩ gi rfl hG mx strat [] fuel s s' m c h
   rw [effExtra_nil] at this
   obtain ⟨h1, h2, _, h3⟩ := this
   refine ⟨h1, by rw [h2, hobj], fun m' hm' => ?_⟩
@@ -152,15 +169,15 @@ theorem maxmin_opt_partial (hO : OracleSpec A obj o) (t : M → Int) (ts : List 
 /-- `boxed_optimize`: solver restored; `None` exactly when there are goals and the assertions are
     unsatisfiable; otherwise one entry per goal, in order, each a feasible model with the optimum of
     that goal.  Missing: `supported = false` (F24b). -/
-theorem boxed_opt_partial (hO : OracleSpec A obj o) (mx : Mixin) (strat : Strat) (fuel : Nat)
-    (goals : List (Nat × Goal)) (hok : GoalsOk A obj goals) (s s' : Solver M)
+theorem boxed_opt_partial (hO : OracleSpec A val o) (mx : Mixin) (strat : Strat) (fuel : Nat)
+    (goals : List (Nat × Goal)) (hok : GoalsOk A val obj goals) (s s' : Solver M)
     (res : Option (List (Nat × M × Int))) (h : boxed o obj mx strat fuel goals s = (.done res, s')) :
     s'.stack = s.stack ∧ s'.marks = s.marks ∧ s'.bad = s.bad ∧
-    (res = none ↔ goals ≠ [] ∧ ¬ ∃ m, Feas A obj s.stack [] m) ∧
+    (res = none ↔ goals ≠ [] ∧ ¬ ∃ m, Feas A val s.stack [] m) ∧
     ∀ l, res = some l →
       All2 (fun (p : Nat × Goal) (q : Nat × M × Int) =>
-        q.1 = p.1 ∧ Feas A obj s.stack [] q.2.1 ∧ q.2.2 = obj p.1 q.2.1 ∧
-        IsOptimum (sense p.2.dir) (Feas A obj s.stack []) (obj p.1) q.2.2) goals l := by
+        q.1 = p.1 ∧ Feas A val s.stack [] q.2.1 ∧ q.2.2 = obj p.1 q.2.1 ∧
+        IsOptimum (sense p.2.dir) (Feas A val s.stack []) (obj p.1) q.2.2) goals l := by
   have hs := boxed_spec hO mx strat fuel goals s hok
   rw [h] at hs
   rcases hs with hf | ⟨res', hres, e1, e2, e3, e4, e5⟩
@@ -171,14 +188,14 @@ theorem boxed_opt_partial (hO : OracleSpec A obj o) (mx : Mixin) (strat : Strat)
     pushed by `_setup` is popped on success as well); `None` exactly when unsatisfiable; otherwise
     a feasible model whose costs are the goal values in that model and are the exact lexicographic
     optimum.  Missing: `supported = false` (F24b); the empty goal list (Python: `UnboundLocalError`). -/
-theorem lexi_opt_partial (hO : OracleSpec A obj o) (mx : Mixin) (strat : Strat) (fuel : Nat)
-    (goals : List (Nat × Goal)) (hne : goals ≠ []) (hok : GoalsOk A obj goals) (s s' : Solver M)
+theorem lexi_opt_partial (hO : OracleSpec A val o) (mx : Mixin) (strat : Strat) (fuel : Nat)
+    (goals : List (Nat × Goal)) (hne : goals ≠ []) (hok : GoalsOk A val obj goals) (s s' : Solver M)
     (res : Option (M × List Int)) (h : lexicographic o obj mx strat fuel goals s = (.done res, s')) :
     s'.stack = s.stack ∧ s'.marks = s.marks ∧ s'.bad = s.bad ∧
-    (res = none ↔ ¬ ∃ m, Feas A obj s.stack [] m) ∧
+    (res = none ↔ ¬ ∃ m, Feas A val s.stack [] m) ∧
     ∀ m vs, res = some (m, vs) →
-      Feas A obj s.stack [] m ∧ vs = goals.map (fun p => obj p.1 m) ∧
-      IsLexOptimum (specGoals obj goals) (Feas A obj s.stack []) vs := by
+      Feas A val s.stack [] m ∧ vs = goals.map (fun p => obj p.1 m) ∧
+      IsLexOptimum (specGoals obj goals) (Feas A val s.stack []) vs := by
   have hs := lexi_spec hO mx strat fuel goals hne hok s
   rw [h] at hs
   rcases hs with hf | ⟨res', hres, e1, e2, e3, e4, e5⟩
@@ -197,16 +214,16 @@ theorem lexi_opt_partial (hO : OracleSpec A obj o) (mx : Mixin) (strat : Strat) 
     The statement is about runs that finish (`.done`); `pareto_terminates_partial` shows that they do
     whenever the feasible models have finitely many cost vectors (the routine cannot terminate on an
     infinite front).  Missing (hence `_partial`): `supported = false` (F24b); the empty goal list. -/
-theorem pareto_front_partial (hO : OracleSpec A obj o) (mx : Mixin) (goals : List (Nat × Goal)) (fuel : Nat)
-    (hsup : ∀ p ∈ goals, p.2.supported = true) (hne : goals ≠ []) (s s' : Solver M)
+theorem pareto_front_partial (hO : OracleSpec A val o) (mx : Mixin) (goals : List (Nat × Goal)) (fuel : Nat)
+    (hG : ∀ q ∈ goals, GoalReadsAll val obj q.2 q.1) (hsup : ∀ p ∈ goals, p.2.supported = true) (hne : goals ≠ []) (s s' : Solver M)
     (res : List (M × List Int)) (h : pareto o obj mx goals fuel s = (.done res, s')) :
     s'.stack = s.stack ∧ s'.marks = s.marks ∧ s'.bad = s.bad ∧
-    (∀ q ∈ res, ParetoOptimal (specGoals obj goals) (Feas A obj s.stack []) q.1 ∧
+    (∀ q ∈ res, ParetoOptimal (specGoals obj goals) (Feas A val s.stack []) q.1 ∧
                 q.2 = costs (specGoals obj goals) q.1) ∧
     (res.map Prod.snd).Pairwise (· ≠ ·) ∧
-    (∀ m, ParetoOptimal (specGoals obj goals) (Feas A obj s.stack []) m →
+    (∀ m, ParetoOptimal (specGoals obj goals) (Feas A val s.stack []) m →
       costs (specGoals obj goals) m ∈ res.map Prod.snd) := by
-  have hs := pareto_spec hO mx goals fuel hsup hne s
+  have hs := pareto_spec hO mx goals hG fuel hsup hne s
   rw [h] at hs
   rcases hs with hf | ⟨found, hres, e1, e2, e3, f1, f2, f3⟩
   · cases hf
@@ -230,10 +247,10 @@ theorem pareto_front_partial (hO : OracleSpec A obj o) (mx : Mixin) (goals : Lis
 
 /-- `boxed_optimize` returns (from some amount of fuel on the model is finished) when the optimum
     of every goal is attained.  Missing: `supported = false` (F24b). -/
-theorem boxed_terminates_partial (hO : OracleSpec A obj o) (mx : Mixin) (strat : Strat)
-    (goals : List (Nat × Goal)) (hok : GoalsOk A obj goals) (s : Solver M)
-    (hatt : ∀ p ∈ goals, (∃ m, Feas A obj s.stack [] m) →
-      OptimumAttained (sense p.2.dir) (Feas A obj s.stack []) (obj p.1)) :
+theorem boxed_terminates_partial (hO : OracleSpec A val o) (mx : Mixin) (strat : Strat)
+    (goals : List (Nat × Goal)) (hok : GoalsOk A val obj goals) (s : Solver M)
+    (hatt : ∀ p ∈ goals, (∃ m, Feas A val s.stack [] m) →
+      OptimumAttained (sense p.2.dir) (Feas A val s.stack []) (obj p.1)) :
     ∃ N, ∀ fuel, fuel ≥ N → ∃ res, (boxed o obj mx strat fuel goals s).1 = .done res := by
   obtain ⟨N, hN, hst⟩ := boxed_stable hO mx strat goals s hok (fun p hp => attained_of (hatt p hp))
   refine ⟨N, fun fuel hge => ?_⟩
@@ -248,10 +265,10 @@ theorem boxed_terminates_partial (hO : OracleSpec A obj o) (mx : Mixin) (strat :
 /-- `lexicographic_optimize` returns when the optimum of every goal is attained on every set of
     models that fixes the values of the earlier goals (always the case for finite domains).
     Missing: `supported = false` (F24b); the empty goal list. -/
-theorem lexi_terminates_partial (hO : OracleSpec A obj o) (mx : Mixin) (strat : Strat)
-    (goals : List (Nat × Goal)) (hne : goals ≠ []) (hok : GoalsOk A obj goals) (s : Solver M)
-    (hatt : ∀ cd, ∀ p ∈ goals, (∃ m, Feas A obj s.stack cd m) →
-      OptimumAttained (sense p.2.dir) (Feas A obj s.stack cd) (obj p.1)) :
+theorem lexi_terminates_partial (hO : OracleSpec A val o) (mx : Mixin) (strat : Strat)
+    (goals : List (Nat × Goal)) (hne : goals ≠ []) (hok : GoalsOk A val obj goals) (s : Solver M)
+    (hatt : ∀ cd, ∀ p ∈ goals, (∃ m, Feas A val s.stack cd m) →
+      OptimumAttained (sense p.2.dir) (Feas A val s.stack cd) (obj p.1)) :
     ∃ N, ∀ fuel, fuel ≥ N → ∃ res, (lexicographic o obj mx strat fuel goals s).1 = .done res := by
   obtain ⟨N, hN, hst⟩ := lexLoop_stable hO mx strat s.stack goals [] none [] s.push rfl hok
     (fun cd p hp => attained_of (hatt cd p hp))
@@ -268,15 +285,91 @@ theorem lexi_terminates_partial (hO : OracleSpec A obj o) (mx : Mixin) (strat : 
 /-- `pareto_optimize` terminates when the feasible models have finitely many cost vectors (all in
     the list `L`; e.g. bit-vector or range-bounded objectives): with `L.length + 2` units of fuel or
     more the model has finished.  Missing: `supported = false` (F24b); the empty goal list. -/
-theorem pareto_terminates_partial (hO : OracleSpec A obj o) (mx : Mixin) (goals : List (Nat × Goal))
-    (hsup : ∀ p ∈ goals, p.2.supported = true) (hne : goals ≠ []) (s : Solver M) (L : List (List Int))
-    (hL : ∀ m, Feas A obj s.stack [] m → costs (specGoals obj goals) m ∈ L)
+theorem pareto_terminates_partial (hO : OracleSpec A val o) (mx : Mixin) (goals : List (Nat × Goal))
+    (hG : ∀ q ∈ goals, GoalReadsAll val obj q.2 q.1) (hsup : ∀ p ∈ goals, p.2.supported = true) (hne : goals ≠ []) (s : Solver M) (L : List (List Int))
+    (hL : ∀ m, Feas A val s.stack [] m → costs (specGoals obj goals) m ∈ L)
     (fuel : Nat) (hfuel : fuel ≥ L.length + 2) :
     ∃ res, (pareto o obj mx goals fuel s).1 = .done res := by
-  have h1 := pareto_terminates hO mx goals hsup hne s L hL fuel hfuel
-  rcases pareto_spec hO mx goals fuel hsup hne s with hf | ⟨found, hres, _⟩
+  have h1 := pareto_terminates hO mx goals hG hsup hne s L hL fuel hfuel
+  rcases pareto_spec hO mx goals hG fuel hsup hne s with hf | ⟨found, hres, _⟩
   · exact absurd hf h1
   · exact ⟨_, hres⟩
+
+/-- A Pareto generator that is abandoned after `k` solutions (`break`, `close()`, garbage collection:
+    `GeneratorExit` at the `yield`; routine as repaired for F24d with `try/finally`): the solver is
+    restored exactly as after a complete run, at most `max k 1` solutions were delivered, each is
+    feasible and Pareto-optimal, and no cost vector was delivered twice.
+    Missing: `supported = false` (F24b); the empty goal list. -/
+theorem pareto_prefix_partial (hO : OracleSpec A val o) (mx : Mixin) (goals : List (Nat × Goal)) (fuel k : Nat)
+    (hG : ∀ q ∈ goals, GoalReadsAll val obj q.2 q.1) (hsup : ∀ p ∈ goals, p.2.supported = true)
+    (hne : goals ≠ []) (s s' : Solver M) (res : List (M × List Int))
+    (h : paretoPrefix o obj mx goals fuel k s = (.done res, s')) :
+    s'.stack = s.stack ∧ s'.marks = s.marks ∧ s'.bad = s.bad ∧ res.length ≤ max k 1 ∧
+    (∀ q ∈ res, ParetoOptimal (specGoals obj goals) (Feas A val s.stack []) q.1 ∧
+                q.2 = costs (specGoals obj goals) q.1) ∧
+    (res.map Prod.snd).Pairwise (· ≠ ·) := by
+  have hs := paretoPrefix_spec hO mx goals hG fuel k hsup hne s
+  rw [h] at hs
+  rcases hs with hf | ⟨ext, hres, e1, e2, e3, f1, f2, f3⟩
+  · cases hf
+  · simp only [List.nil_append] at hres f1 f2
+    cases hres
+    have hc : ∀ p : M, (goals.map (fun (x : Nat × Goal) => obj x.1 p)) = costs (specGoals obj goals) p := by
+      intro p; simp [costs, specGoals]
+    refine ⟨e1, e2, e3, by simpa [accOf] using f3, ?_, ?_⟩
+    · intro q hq
+      simp only [accOf, List.mem_map] at hq
+      obtain ⟨p, hp, rfl⟩ := hq
+      exact ⟨f1 p hp, hc p⟩
+    · simp only [accOf, List.map_map]
+      rw [List.pairwise_map]
+      refine f2.imp ?_
+      intro a b hab
+      simpa [hc] using hab
+
+/-- … and what was delivered before the generator was abandoned is a prefix of what the complete
+    run delivers (the oracle answers being the same) -/
+theorem pareto_prefix_of_front (mx : Mixin) (goals : List (Nat × Goal)) (fuel k : Nat) (s s' : Solver M)
+    (res : List (M × List Int)) (h : pareto o obj mx goals fuel s = (.done res, s')) :
+    ∃ rk sk, paretoPrefix o obj mx goals fuel k s = (.done rk, sk) ∧ rk <+: res :=
+  paretoPrefix_prefix mx goals fuel k s s' res h
+
+/-- The comparison table is sound, bit-vector semantics: the strict cut `op_strict(term, cast(b))`
+    that `linear_search_cut` / `binary_search_cut` build for goal `g` -- operator family and cast
+    taken from the row of `_comparation_functions` selected by the goal's sort and signedness,
+    evaluated with `BitVec.ult/slt` on the raw model value against `BitVec.ofInt w b` -- holds exactly
+    in the models whose objective value, read as the goal reads it, is strictly better than `b`,
+    whenever `b` is representable.  (Full strength; for the non-strict `op_ns` of the Pareto routine
+    see `Proofs/C18Interval.ns_atom_holds`.) -/
+theorem table_cut_sound (g : Goal) (gi : Nat) (b : Int) (m : M)
+    (hty : ValTyped g.dom (val gi m)) (hr : obj gi m = readObj g.dom (val gi m)) (hc : castOk g.dom b = true) :
+    (Constraint.atom ⟨gi, g.dom, strictCmp g, b⟩).holds val m = true ↔ (sense g.dir).lt (obj gi m) b := by
+  rw [strict_atom_holds val obj m g gi b hty hr hc, sense_lt]
+
+/-- MaxSMT with rational weights (`MaxSMTGoal()` defaults to `real_weights=True`), *linear* strategy,
+    through the common denominator: if `d > 0` and `softN` carries the integer weights `d * w`, then
+    the model run on the scaled integer objective returns a feasible model that maximises the rational
+    weight `Σ (if clause then w else 0)` of the satisfied soft clauses, and the returned cost is `d`
+    times that weight.
+    Missing (hence `_partial`): (a) the model manipulates the scaled integers whereas the code
+    manipulates `Fraction`s; that the linear search commutes with the scaling (it only compares, and
+    copies model values into bounds) is covered by the correspondence run (the harness scales the
+    logged values by the same `d`), not by a proof; (b) the binary strategy on a real-typed objective
+    (`Fraction((l+u)/2)` pivots) is not modelled -- on an attained optimum it never makes the interval
+    empty, the property excludes it ("weights integer whenever bisection is used"); (c) F24b. -/
+theorem maxsmt_real_linear_partial (hO : OracleSpec A val o) (d : Int) (hd : 0 < d)
+    (softQ : List ((M → Bool) × Rat)) (softN : List ((M → Bool) × Int)) (hsc : Scaled d softQ softN)
+    (gi : Nat) (hobj : ∀ m, obj gi m = maxsmtObj softN m) (hG : GoalReads A val obj ⟨.max, .int, true⟩ gi)
+    (mx : Mixin) (fuel : Nat) (s s' : Solver M) (m : M) (c : Int)
+    (h : optimize o obj mx .linear ⟨.max, .int, true⟩ gi [] fuel s = (.done (some (m, c)), s')) :
+    Feas A val s.stack [] m ∧ (d : Rat) * maxsmtObjQ softQ m = (c : Rat) ∧
+      ∀ m', Feas A val s.stack [] m' → maxsmtObjQ softQ m' ≤ maxsmtObjQ softQ m := by
+  obtain ⟨h1, h2, h3⟩ := maxsmt_opt_partial hO softN gi hobj hG mx .linear fuel s s' m c h
+  refine ⟨h1, by rw [scaled_sum d softQ softN hsc m, h2], fun m' hm' => ?_⟩
+  have hle : ((maxsmtObj softN m' : Int) : Rat) ≤ ((maxsmtObj softN m : Int) : Rat) :=
+    Rat.intCast_le_intCast.2 (by rw [← h2]; exact h3 m' hm')
+  rw [← scaled_sum d softQ softN hsc m', ← scaled_sum d softQ softN hsc m] at hle
+  exact Rat.le_of_mul_le_mul_left hle (by exact_mod_cast hd)
 
 /-- the S-oracle `spec opt` of the driver (optimum of an explicit list of feasible objective
     values) returns an element of the list that no element improves on -/
@@ -305,25 +398,61 @@ theorem search_restores_full_fails : ¬ search_restores_full_statement := by
 
 /-! ## Non-vacuity: the hypotheses are satisfiable and the conclusions are about real runs -/
 
-example : (match (optimize (exOracle (fun _ m => m)) (fun _ m => m) .sua .binary ⟨.max, .int, true⟩ 0 [] 20 {}).1 with
+example : (match (optimize (exOracle (intVal fun _ m => m)) (fun _ m => m) .sua .binary ⟨.max, .int, true⟩ 0 [] 20 {}).1 with
     | .done (some (m, c)) => m == 5 && c == 5 | _ => false) = true := by decide
 
-example : (match (optimize (exOracle (fun _ m => m)) (fun _ m => m) .incr .linear ⟨.min, .ubv 3, true⟩ 0 [] 20 {}).1 with
+/-- unsigned 3-bit goal: models 0…5 read as 0…5, minimum 0 -/
+example : (match (optimize (exOracle bv3Val) (fun i m => readObj (.ubv 3) (bv3Val i m)) .incr .linear
+      ⟨.min, .ubv 3, true⟩ 0 [] 20 {}).1 with
     | .done (some (m, c)) => m == 0 && c == 0 | _ => false) = true := by decide
 
-example : (match (lexicographic (exOracle (fun i m => if i = 0 then m % 2 else m)) (fun i m => if i = 0 then m % 2 else m) .incr .binary 20
+/-- signed 3-bit goal on the same bit patterns: 4 and 5 read as -4 and -3, minimum -4 (model 4);
+    the cuts are `BVSLT(term, SBV(b, 3))`, evaluated with `BitVec.slt` -/
+example : (match (optimize (exOracle bv3Val) (fun i m => readObj (.sbv 3) (bv3Val i m)) .sua .binary
+      ⟨.min, .sbv 3, true⟩ 0 [] 20 {}).1 with
+    | .done (some (m, c)) => m == 4 && c == -4 | _ => false) = true := by decide
+
+/-- the signedness column is proof-relevant: on the value `0b111` the atom built with the unsigned
+    family (`BVULT`, `BV` cast) and the one built with the signed family (`BVSLT`, `SBV` cast) disagree,
+    and only the signed one agrees with the signed reading `-1 < 1` -/
+example : (Atom.mk 0 (.ubv 3) .lt 1).holds (fun _ (_ : Unit) => Val.bv 3 7#3) () = false ∧
+    (Atom.mk 0 (.sbv 3) .lt 1).holds (fun _ (_ : Unit) => Val.bv 3 7#3) () = true ∧
+    readObj (.sbv 3) (Val.bv 3 7#3) = -1 := by decide
+
+example : (match (lexicographic (exOracle (intVal fun i m => if i = 0 then m % 2 else m)) (fun i m => if i = 0 then m % 2 else m) .incr .binary 20
       [(0, ⟨.max, .int, true⟩), (1, ⟨.min, .int, true⟩)] {}).1 with
     | .done (some (m, vs)) => m == 1 && vs == [1, 1] | _ => false) = true := by decide
 
-example : (match (pareto (exOracle (fun i m => if i = 0 then m else (m - 3) * (m - 3))) (fun i m => if i = 0 then m else (m - 3) * (m - 3)) .sua
+example : (match (pareto (exOracle (intVal fun i m => if i = 0 then m else (m - 3) * (m - 3))) (fun i m => if i = 0 then m else (m - 3) * (m - 3)) .sua
       [(0, ⟨.min, .int, true⟩), (1, ⟨.min, .int, true⟩)] 20 {}).1 with
     | .done l => l.map Prod.snd == [[0, 9], [1, 4], [2, 1], [3, 0]] | _ => false) = true := by decide
 
-/-- the hypotheses of `search_optimal_partial` hold for the concrete run above (so the theorem says
-    something about it) -/
-example : ∃ m c s', optimize (exOracle (fun _ m => m)) (fun _ m => m) .sua .binary ⟨.max, .int, true⟩ 0 [] 20 {} = (.done (some (m, c)), s') ∧
-    IsOptimum .max (Feas (fun m : Int => m ∈ ([0, 1, 2, 3, 4, 5] : List Int)) (fun _ m => m) [] []) (fun m => m) c := by
+/-- the generator abandoned after two solutions: a prefix of the front, solver restored -/
+example : (match paretoPrefix (exOracle (intVal fun i m => if i = 0 then m else (m - 3) * (m - 3))) (fun i m => if i = 0 then m else (m - 3) * (m - 3)) .incr
+      [(0, ⟨.min, .int, true⟩), (1, ⟨.min, .int, true⟩)] 20 2 {} with
+    | (.done l, s') => l.map Prod.snd == [[0, 9], [1, 4]] && s'.marks.isEmpty && s'.stack.isEmpty | _ => false) = true := by
+  decide
+
+/-- `Scaled` is inhabited by non-trivial weights: 1/2 and 3/4 over the common denominator 4 -/
+example : Scaled (M := Unit) 4 [(fun _ => true, (1 / 2 : Rat)), (fun _ => false, (3 / 4 : Rat))]
+    [(fun _ => true, 2), (fun _ => false, 3)] :=
+  All2.cons ⟨rfl, by decide +kernel⟩ (All2.cons ⟨rfl, by decide +kernel⟩ All2.nil)
+
+/-- `GoalReads` holds for the concrete goals above -/
+example : GoalReads (fun m : Int => m ∈ ([0, 1, 2, 3, 4, 5] : List Int)) bv3Val
+    (fun i m => readObj (.sbv 3) (bv3Val i m)) ⟨.min, .sbv 3, true⟩ 0 :=
+  fun _ _ => ⟨⟨rfl, by decide⟩, rfl⟩
+
+/-- the hypotheses of `search_optimal_partial` hold for a concrete signed bit-vector run (so the
+    theorem says something about it) -/
+example : ∃ m c s', optimize (exOracle bv3Val) (fun i m => readObj (.sbv 3) (bv3Val i m)) .sua .binary
+      ⟨.min, .sbv 3, true⟩ 0 [] 20 {} = (.done (some (m, c)), s') ∧
+    IsOptimum .min (Feas (fun m : Int => m ∈ ([0, 1, 2, 3, 4, 5] : List Int)) bv3Val [] [])
+      (fun m => readObj (.sbv 3) (bv3Val 0 m)) c := by
   refine ⟨_, _, _, rfl, ?_⟩
-  exact (search_optimal_partial (exOracle_spec _) ⟨.max, .int, true⟩ 0 rfl (fun _ _ => rfl) .sua .binary [] 20 {} _ _ _ rfl).2.2
+  have hG : GoalReads (fun m : Int => m ∈ ([0, 1, 2, 3, 4, 5] : List Int)) bv3Val
+      (fun i m => readObj (.sbv 3) (bv3Val i m)) ⟨.min, .sbv 3, true⟩ 0 :=
+    fun _ _ => ⟨⟨rfl, by decide⟩, rfl⟩
+  exact (search_optimal_partial (exOracle_spec _) ⟨.min, .sbv 3, true⟩ 0 rfl hG .sua .binary [] 20 {} _ _ _ rfl).2.2
 
 end PySMT.Props.C18
